@@ -584,6 +584,14 @@ func (ex *Exec) oblige(cond *smt.Term, label string, implicit bool) bool {
 		// a counterexample only counts inside the declared input domain
 		r, _ = ex.S.CheckHard(append(fs, ex.Domain...), nil)
 	}
+	if r == smt.Unknown {
+		// undecided under load: one retry with a longer limit before the obligation counts as inconclusive
+		full := fs
+		if len(ex.Domain) > 0 {
+			full = append(append([]*smt.Term(nil), fs...), ex.Domain...)
+		}
+		r, _ = ex.S.CheckLong(full, nil)
+	}
 	ob := Obligation{Label: label, Path: append([]int(nil), ex.decisions[:ex.pos]...), Implicit: implicit}
 	if len(cond.String()) < 400 {
 		ob.Formula = cond.String()
